@@ -210,6 +210,8 @@ fn retire(eps: Vec<Endpoint>) {
 
 type Fails = Rc<RefCell<Vec<(String, String)>>>;
 
+static T_STALLS: std::sync::atomic::AtomicUsize = std::sync::atomic::AtomicUsize::new(0);
+
 // ------------------------------------------------------------------------------------------- T cases
 
 #[derive(Clone, Debug)]
@@ -382,6 +384,8 @@ struct TCtx {
     registry: Registry,
     /// per line: [primary direction outcome, reverse direction outcome]
     results: Rc<RefCell<Vec<[Option<String>; 2]>>>,
+    /// per line: how the WRITER of each direction ended (`finish` + `stopped().await`)
+    wres: Rc<RefCell<Vec<[Option<String>; 2]>>>,
     specs: Rc<Vec<Option<(String, usize, StreamSpec, Option<StreamSpec>)>>>, // kind, opener side, spec, echo spec
     fails: Fails,
     notify: Rc<Notify>,
@@ -506,6 +510,7 @@ async fn run_transfer(lines: &[String], ex: &mut Exec) -> Vec<String> {
         conns: conns.clone(),
         registry: Rc::new(RefCell::new(HashMap::new())),
         results: Rc::new(RefCell::new(vec![[None, None]; n])),
+        wres: Rc::new(RefCell::new(vec![[None, None]; n])),
         specs: Rc::new(specs.clone()),
         fails: fails.clone(),
         notify: Rc::new(Notify::default()),
@@ -548,8 +553,12 @@ async fn run_transfer(lines: &[String], ex: &mut Exec) -> Vec<String> {
                         ctx2.live.set(ctx2.live.get() + 1);
                         let ctx3 = ctx2.clone();
                         compio_runtime::spawn(async move {
-                            if let Err(e) = writer_half(s, espec).await {
-                                ctx3.results.borrow_mut()[line][1].get_or_insert(format!("error:{e}"));
+                            match writer_half(s, espec).await {
+                                Ok(()) => ctx3.wres.borrow_mut()[line][1] = Some("none".into()),
+                                Err(e) => {
+                                    ctx3.wres.borrow_mut()[line][1] = Some(format!("error:{e}"));
+                                    ctx3.results.borrow_mut()[line][1].get_or_insert(format!("error:{e}"));
+                                }
                             }
                             ctx3.live.set(ctx3.live.get() - 1);
                             ctx3.notify.notify();
@@ -583,8 +592,12 @@ async fn run_transfer(lines: &[String], ex: &mut Exec) -> Vec<String> {
                 }
             }
             .await;
-            if let Err(e) = res {
-                ctx2.results.borrow_mut()[i][0].get_or_insert(format!("error:{e}"));
+            match res {
+                Ok(()) => ctx2.wres.borrow_mut()[i][0] = Some("none".into()),
+                Err(e) => {
+                    ctx2.wres.borrow_mut()[i][0] = Some(format!("error:{e}"));
+                    ctx2.results.borrow_mut()[i][0].get_or_insert(format!("error:{e}"));
+                }
             }
             ctx2.live.set(ctx2.live.get() - 1);
             ctx2.notify.notify();
@@ -652,7 +665,12 @@ async fn run_transfer(lines: &[String], ex: &mut Exec) -> Vec<String> {
     }
     // --- wait for completion
     let live = ctx.live.clone();
-    let finished = ctx.notify.wait_until(|| live.get() == 0, Duration::from_secs(30)).await;
+    // a stalled transfer costs a whole watchdog: after two of them in one run the later cases wait less
+    let watchdog = if T_STALLS.load(std::sync::atomic::Ordering::Relaxed) >= 2 { Duration::from_secs(3) } else { Duration::from_secs(20) };
+    let finished = ctx.notify.wait_until(|| live.get() == 0, watchdog).await;
+    if !finished {
+        T_STALLS.fetch_add(1, std::sync::atomic::Ordering::Relaxed);
+    }
     if finished && !dgrams.is_empty() {
         // datagrams are unreliable: wait for all of them, but not for long
         let total: usize = dgrams.iter().map(|d| d.2).sum();
@@ -662,10 +680,28 @@ async fn run_transfer(lines: &[String], ex: &mut Exec) -> Vec<String> {
     for (i, sp) in specs.iter().enumerate() {
         let Some((kind, ..)) = sp else { continue };
         let r = ctx.results.borrow()[i].clone();
-        let show = |x: &Option<String>| x.clone().unwrap_or_else(|| "timeout".into());
-        out[i] = if kind == "bi" { format!("{} | {}", show(&r[0]), show(&r[1])) } else { show(&r[0]) };
-        if r[0].is_none() || (kind == "bi" && r[1].is_none()) {
-            fails.borrow_mut().push(("C16:stranded-future".into(), format!("kind=transfer line {i} did not finish within 30 s")));
+        let wr = ctx.wres.borrow()[i].clone();
+        let show = |x: &Option<String>, w: &Option<String>| {
+            format!("{} stopped={}", x.clone().unwrap_or_else(|| "timeout".into()), w.clone().unwrap_or_else(|| "timeout".into()))
+        };
+        out[i] = if kind == "bi" { format!("{} | {}", show(&r[0], &wr[0]), show(&r[1], &wr[1])) } else { show(&r[0], &wr[0]) };
+        let dirs = if kind == "bi" { 2 } else { 1 };
+        for d in 0..dirs {
+            if r[d].is_none() {
+                fails.borrow_mut().push((
+                    "C16:stranded-future".into(),
+                    format!("kind=read (transfer) line {i} direction {d}: the reader did not finish within {} s", watchdog.as_secs()),
+                ));
+            }
+            if wr[d].is_none() {
+                fails.borrow_mut().push((
+                    "C16:stranded-future".into(),
+                    format!(
+                        "kind=write/stopped (transfer) line {i} direction {d}: write .. finish .. stopped().await did not finish within {} s",
+                        watchdog.as_secs()
+                    ),
+                ));
+            }
         }
     }
     for &(line, _, count, ..) in &dgrams {
@@ -1088,6 +1124,7 @@ async fn run_close_case(lines: &[String], ex: &mut Exec) -> Vec<String> {
                 // (peer side, kind, stream) of the pending futures this action must complete; `any_one`: one of them
                 let mut expect: Vec<usize> = vec![];
                 let mut any_one: Option<&str> = None;
+                let mut any_n: usize = 1;
                 let mut star = false;
                 let unreported = |kind: &str, sd: usize, sid: Option<usize>, pends: &[Pend]| -> Vec<usize> {
                     pends
@@ -1154,6 +1191,38 @@ async fn run_close_case(lines: &[String], ex: &mut Exec) -> Vec<String> {
                                 any_one = Some("recv_dgram");
                             }
                             star = true;
+                        }
+                        "dgrams" => {
+                            // a burst: all datagrams are queued before the worker runs, so they travel together and
+                            // the peer's receive buffer goes from empty to non-empty ONCE
+                            let c = sides[side].conn.as_ref().ok_or("no conn")?;
+                            let cnt = k.ok_or("arg")?;
+                            for j in 0..cnt {
+                                c.send_datagram(Bytes::from(vec![j as u8; 8])).map_err(|e| e.to_string())?;
+                            }
+                            let waiting = unreported("recv_dgram", peer, None, &pends).len();
+                            if waiting > 0 {
+                                any_one = Some("recv_dgram");
+                                any_n = waiting.min(cnt);
+                            }
+                            star = true;
+                        }
+                        "drop" => {
+                            let kk = k.ok_or("arg")?;
+                            match w.get(5).copied() {
+                                Some("recv") => {
+                                    let r = sides[side].recv.remove(&kk).ok_or("no recv half")?;
+                                    drop(r); // implicit stop(0)
+                                    expect.extend(unreported("stopped", peer, k, &pends));
+                                    expect.extend(unreported("write", peer, k, &pends));
+                                }
+                                Some("send") => {
+                                    let s = sides[side].send.remove(&kk).ok_or("no send half")?;
+                                    drop(s); // implicit finish()
+                                    expect.extend(unreported("read", peer, k, &pends));
+                                }
+                                _ => return Err("bad-op".into()),
+                            }
                         }
                         "open" => {
                             let c = sides[side].conn.clone().ok_or("no conn")?;
@@ -1224,7 +1293,9 @@ async fn run_close_case(lines: &[String], ex: &mut Exec) -> Vec<String> {
                         .wait_until(
                             || {
                                 ex2.iter().all(|&j| pr[j].done())
-                                    && any_one.map(|kd| pr.iter().any(|p| !p.reported && p.kind == kd && p.side == peer && p.done())).unwrap_or(true)
+                                    && any_one
+                                        .map(|kd| pr.iter().filter(|p| !p.reported && p.kind == kd && p.side == peer && p.done()).count() >= any_n)
+                                        .unwrap_or(true)
                             },
                             ACT_WATCHDOG,
                         )
@@ -1243,9 +1314,13 @@ async fn run_close_case(lines: &[String], ex: &mut Exec) -> Vec<String> {
                         }
                     }
                     if let Some(kd) = any_one {
-                        if !pends.iter().any(|p| !p.reported && p.kind == kd && p.side == peer && p.done()) {
+                        let got = pends.iter().filter(|p| !p.reported && p.kind == kd && p.side == peer && p.done()).count();
+                        if got < any_n {
                             let sig = if cancelled_closed { "F161:closed-cancel-kills-worker" } else { "C16:stranded-future" };
-                            fails.push((sig.into(), format!("kind={kd} side={peer} after=act:{what}: no waiter completed")));
+                            fails.push((
+                                sig.into(),
+                                format!("kind={kd} side={peer} after=act:{what}: {got} of {any_n} waiters completed within {} ms", ACT_WATCHDOG.as_millis()),
+                            ));
                         }
                     }
                 }
@@ -1924,7 +1999,7 @@ fn gen_close(rng: &mut Rng, idx: usize) -> Case {
     for _ in 0..nacts {
         let side = rng.below(2) as usize;
         let peer = 1 - side;
-        let what = *rng.pick(&["stop", "reset", "finish", "write", "drain", "dgram", "open", "limit"]);
+        let what = *rng.pick(&["stop", "reset", "finish", "write", "drain", "dgram", "dgrams", "open", "limit", "drop", "drop"]);
         match what {
             "stop" | "drain" => {
                 let mut c: Vec<_> = free_recv.iter().filter(|h| h.1 == side).copied().collect();
@@ -1978,6 +2053,52 @@ fn gen_close(rng: &mut Rng, idx: usize) -> Case {
                     live.remove(pos);
                 }
                 lines.push(format!("C act {} dgram", sd[side]));
+            }
+            "dgrams" => {
+                // a burst of as many datagrams as there are receivers parked (a surplus would stay buffered)
+                let waiting = live.iter().filter(|p| p.0 == peer && p.1 == "recv_dgram").count();
+                if waiting < 2 {
+                    continue;
+                }
+                let cnt = rng.range(2, waiting as u64) as usize;
+                for _ in 0..cnt {
+                    let pos = live.iter().position(|p| p.0 == peer && p.1 == "recv_dgram").unwrap();
+                    live.remove(pos);
+                }
+                lines.push(format!("C act {} dgrams {cnt}", sd[side]));
+            }
+            "drop" => {
+                // one half of a stream dropped by its owner while the other half (possibly pending in another
+                // task) lives on
+                if rng.chance(1, 2) {
+                    let mut c: Vec<_> = free_recv.iter().filter(|h| h.1 == side).copied().collect();
+                    c.sort();
+                    if c.is_empty() {
+                        continue;
+                    }
+                    let h = *rng.pick(&c);
+                    if frees_credit(h.0, &live) {
+                        continue;
+                    }
+                    free_recv.remove(&h);
+                    free_send.remove(&(h.0, peer));
+                    live.retain(|p| !(p.0 == peer && (p.1 == "write" || p.1 == "stopped") && p.2 == Some(h.0)));
+                    lines.push(format!("C act {} drop {} recv", sd[side], h.0));
+                } else {
+                    let mut c: Vec<_> = free_send.iter().filter(|h| h.1 == side).copied().collect();
+                    c.sort();
+                    if c.is_empty() {
+                        continue;
+                    }
+                    let h = *rng.pick(&c);
+                    if frees_credit(h.0, &live) || live.iter().any(|p| p.0 == peer && p.1 == "reset" && p.2 == Some(h.0)) {
+                        continue;
+                    }
+                    free_send.remove(&h);
+                    free_recv.remove(&(h.0, peer));
+                    live.retain(|p| !(p.0 == peer && p.1 == "read" && p.2 == Some(h.0)));
+                    lines.push(format!("C act {} drop {} send", sd[side], h.0));
+                }
             }
             "open" => {
                 let ki = rng.below(2) as usize;
@@ -2066,6 +2187,48 @@ fn dedicated() -> Vec<Case> {
         c("ep-zero-connections", &["E ep zero", "E pend", "E pend", "E pend", "E close", "E shutdown"]),
         c("ep-drained-connection", &["E ep drained", "E pend", "E pend", "E close", "E shutdown"]),
         c("ep-live-connection", &["E ep live", "E pend", "E act connect", "E pend", "E pend", "E close", "E shutdown"]),
+        // the two halves of a bidirectional stream in different tasks: dropping one half must not touch the other
+        // half's waker (same StreamId!)
+        c(
+            "bi-recv-half-dropped-then-close",
+            &["C conn cbi=1 cuni=0 sbi=1 suni=0", "C stream 0 c bi", "C pend c stopped 0", "C act c drop 0 recv", "C close c conn"],
+        ),
+        c(
+            "bi-recv-half-dropped-then-peer-stops",
+            &[
+                "C conn cbi=1 cuni=0 sbi=1 suni=0",
+                "C stream 0 s bi",
+                "C pend s stopped 0",
+                "C pend s recv_dgram",
+                "C act s drop 0 recv",
+                "C act c stop 0",
+                "C close s endpoint",
+            ],
+        ),
+        c(
+            "bi-send-half-dropped-reader-pending",
+            &[
+                "C conn cbi=1 cuni=0 sbi=1 suni=0 srw=512",
+                "C stream 0 c bi",
+                "C pend c read 0",
+                "C pend c accept_bi",
+                "C act c drop 0 send",
+                "C act s write 0",
+                "C close s conn",
+            ],
+        ),
+        // k receivers in separate tasks, k datagrams in one burst: `DatagramReceived` is raised once
+        c(
+            "dgram-burst",
+            &[
+                "C conn cbi=0 cuni=0 sbi=0 suni=0",
+                "C pend s recv_dgram",
+                "C pend s recv_dgram",
+                "C pend s recv_dgram",
+                "C act c dgrams 3",
+                "C close c conn",
+            ],
+        ),
         // blocked datagram senders at a synchronous close
         c("dgram-senders-at-close", &["C conn cbi=0 cuni=0 sbi=0 suni=0 dgsb=100", "C syncclose c 3"]),
         c("dgram-sender-at-close-server", &["C conn cbi=0 cuni=0 sbi=0 suni=0 dgsb=100", "C syncclose s 1"]),
